@@ -136,11 +136,12 @@ def coq_op(op):
 def shift_ops(ops, d):
     """move a history without series in time"""
     out = []
+    sh = lambda x: None if x is None else x + d      # noqa: E731
     for o in ops:
         if o[0] in ("add", "remove", "rseries"):
-            out.append([o[0], o[1] + d, o[2] + d] + list(o[3:]))
+            out.append([o[0], sh(o[1]), sh(o[2])] + list(o[3:]))
         elif o[0] in ("addmany", "removemany"):
-            out.append([o[0], [[it[0] + d, it[1] + d] + list(it[2:]) for it in o[1]]])
+            out.append([o[0], [[sh(it[0]), sh(it[1])] + list(it[2:]) for it in o[1]]])
         elif o[0] == "slice":
             out.append(["slice", o[1] + d, o[2] + d, o[3]])
         elif o[0] == "remove_fetched":
@@ -167,10 +168,14 @@ class MemFamily(Family):
         H = 3600
         uni = [(BASE + 2 * H, BASE + 5 * H), (BASE + 2 * H, BASE + 9 * H), (BASE + 2 * H, BASE + 5 * H),
                (BASE + DAY, BASE + DAY + H), (BASE - H, BASE + 30 * H), (BASE + 3 * DAY, BASE + 3 * DAY + 2 * H)]
+        # stored intervals may be open on either side ("since ...", "until ..."): one history in four
+        uni_open = uni + [(None, BASE + 3 * H), (BASE - 3 * DAY, None), (BASE + 4 * H, None)]
+        uni_closed = uni
         for _ in range(n):
             ops = []
             npat = 0
             added = []
+            uni = uni_open if rng.random() < 0.25 else uni_closed
             for _ in range(rng.choice([2, 4, 6, 8, 10, 12] if tier == "quick" else [6, 10, 14, 16])):
                 r = rng.random()
                 if r < 0.25:
